@@ -5,8 +5,14 @@ BibTeX engine: a `.bst` program that `write$`s the text and calls `newline$`, ru
 `pybtex.bibtex.interpreter.Interpreter`).  Model side: `Model/Wrap.lean` through the driver
 ops `wrap` / `wrap_widths`.  The oracle evaluates the clauses of the property on the
 implementation's output string.
+
+Family `engine-lines` (op `wrap_engine`): a `.bst` program with SEVERAL `newline$` calls, empty
+buffers and several `write$` pieces per line; model side = the interpreter model (`Interp.run` on
+the program text) cross-checked with the buffer semantics `engineOutput` of `Model/Wrap.lean`;
+oracle on the physical lines (`_engine_clauses`).
 """
 import itertools
+import re
 
 import compat  # noqa: F401
 from props.base import corpus_for
@@ -28,12 +34,20 @@ THEOREMS = {
     'C19_rstrip': 'the returned string is the "\\n"-join of the lines with only trailing white space removed; no emitted line ends in white space',
     'C19_short_identity': '|s| <= width => a single line (none for the empty string) and wrap(s) = rstrip(s)',
     'C19_terminates': 'iter_lines terminates (well-founded definition; the decrease is |indent| < break_pos < |s|): at most |s| + 1 lines',
+    'C19_indent_emitted_partial': 'continuation lines are indented (emitted lines, white-space indent), restricted form: a continuation line that holds a non-white-space character starts with the indent after rstrip and is not empty; one that is white space only is emitted EMPTY (recorded finding C19-blank-continuation-line)',
+    'C19_indent_emitted_neg': 'the unrestricted clause "every emitted continuation line starts with the indent" is false of the code: wrap("aaaa   bbbb", 3) = "aaaa\\n\\n  bbbb"; with the default arguments 79 non-blank characters + two blanks give a second, empty line',
+    'C19_default_lines': 'the statement instantiated for the call the engine makes, wrap(text) = wrap(text, 79, two blanks): join of the stripped lines, exact reconstruction, non-white-space characters and words preserved, continuation lines start with two blanks (or are empty), a line longer than 79 has no white space behind column 2, no trailing white space',
+    'C19_engine_newline': 'physical lines of BibTeX-engine output: the newline$ step of the interpreter model (Model/Interp.lean) appends wrap(concatenation of the write$ buffer, 79, "  ") and a line feed to the output and EMPTIES the buffer; write$ appends its operand to the buffer unchanged',
+    'C19_engine_output': 'a program writing groups of pieces, each followed by newline$: the output is group by group the wrapped concatenation of the pieces + line feed; the concatenation of all writes is preserved up to white space; no word is split or merged, within a group or across a newline$',
 }
 RULE = ('exhaustive: every word-length profile of <=N words (lengths 1..6, gaps of 1-2 blanks, 0-2 leading blanks, optional trailing blank) '
         'at every width 3..12 with the default indent; boundary sweep at width 79 (two- and three-word lines with lengths 70..90, '
         'continuation-line boundary); seeded random long lines with all 29 white-space code points, words longer than the width, '
         'random widths (incl. 0 and negative) and indents; a share of the default-argument cases goes through the BibTeX interpreter '
-        '(write$ + newline$); non-trivial = output has a line break; distinct by case JSON')
+        '(write$ + newline$); short profiles with gaps of 1-4 blanks / tab / blank+tab at widths 3..8; width 79 with blank / tab runs of '
+        '75..85 and 150..165 and trailing blanks behind lines ending at columns 74..82; .bst programs with 1..6 newline$ calls, empty '
+        'and blank buffers, 0..6 write$ pieces per line (every sequence of <=3 groups over 10 fixed groups + random programs, pieces with '
+        'braces, %, backslashes, >5000 characters); non-trivial = output has a line break (engine programs: >= 2 newline$); distinct by case JSON')
 TRUSTED = ['Python `\\s`, str.isspace and str.rstrip() agree on the 29 white-space code points of Model/Basic.lean (re-checked against the running interpreter on every run)']
 ASSUMPTIONS = ['width is an integer, the indent a string (what BibTeX output uses: 79 and two blanks); no lone surrogates in the text']
 
@@ -60,6 +74,8 @@ def _check_ws_table():
         c = chr(cp)
         if (c in WS) != bool(ws_re.match(c)) or (c in WS) != (('a' + c).rstrip() == 'a'):
             raise AssertionError('\\s / rstrip disagree with the white-space table at U+%04X' % cp)
+        if (c in WS) != (('a' + c + 'b').split() == ['a', 'b']):
+            raise AssertionError('str.split() (used by the oracle for "words") disagrees with the white-space table at U+%04X' % cp)
     _WS_CHECKED.append(True)
 
 
@@ -70,6 +86,9 @@ FUNCTION {main} { "%s" write$ "%s" write$ newline$ }
 EXECUTE {main}
 '''
 ENGINE_OK = frozenset('abcdefghijklmnopqrstuvwxyzABCDEFGHIJKLMNOPQRSTUVWXYZ0123456789.,;:- \t')
+# what a piece of an `engine-lines` case may contain: everything a .bst string literal can hold on one line
+# (no '"', no line break; braces and '%' are ordinary characters inside a string literal)
+ENGINE_LINES_OK = ENGINE_OK | frozenset("{}%\\~'()!?$&#_^@*+=<>/|[]`")
 
 
 def _engine(text, split):
@@ -83,9 +102,27 @@ def _engine(text, split):
     return out[:-1]
 
 
+def bst_of(groups):
+    """The .bst program of an `engine-lines` case: for every element of `groups` one write$ per piece, then newline$."""
+    body = []
+    for g in groups:
+        body += ['"%s" write$' % piece for piece in g]
+        body.append('newline$')
+    return 'ENTRY {} {} {}\nFUNCTION {main} { %s }\nEXECUTE {main}\n' % ' '.join(body)
+
+
+def _engine_lines(groups):
+    from pybtex.bibtex import bst
+    from pybtex.bibtex.interpreter import Interpreter
+    script = bst.parse_string(bst_of(groups))
+    return {'bbl': Interpreter('bibtex', 'utf-8').run(script, [], [], 2)}
+
+
 def impl(case):
     from pybtex.bibtex.utils import wrap
     try:
+        if case['op'] == 'wrap_engine':
+            return _engine_lines(case['lines'])
         text, indent = case['text'], case['indent']
         if case['op'] == 'wrap_widths':
             return [wrap(text, w, indent) for w in case['widths']]
@@ -102,17 +139,27 @@ def impl(case):
 
 
 def to_request(case):
+    if case['op'] == 'wrap_engine':
+        return {'op': 'wrap_engine', 'bst': bst_of(case['lines']), 'lines': case['lines']}
     if case['op'] == 'wrap_widths':
         return {'op': 'wrap_widths', 'text': case['text'], 'widths': case['widths'], 'indent': case['indent']}
     return {'op': 'wrap', 'text': case['text'], 'width': case['width'], 'indent': case['indent']}
 
 
 def model_out(case, reply):
-    return reply.get('out')
+    out = reply.get('out')
+    if case['op'] == 'wrap_engine' and isinstance(out, dict) and out.get('bbl') != reply['spec']['engine']:
+        # the interpreter model (Model/Interp.lean) and the buffer semantics of Model/Wrap.lean (engineOutput) must agree
+        return {'model_inconsistent': {'interpreter_model': out, 'engineOutput': reply['spec']['engine']}}
+    return out
 
 
 def valid_case(case):
     try:
+        if case['op'] == 'wrap_engine':
+            g = case['lines']
+            return (isinstance(g, list) and len(g) > 0 and
+                    all(isinstance(x, list) and all(isinstance(p, str) and all(c in ENGINE_LINES_OK for c in p) for p in x) for x in g))
         if not isinstance(case['text'], str) or not isinstance(case['indent'], str):
             return False
         if case['op'] == 'wrap_widths':
@@ -139,22 +186,30 @@ def _rstrip(s):
     return s[:i]
 
 
+_DEL_WS = {c: None for c in WS_CODES}
+_WS_STR = ''.join(chr(c) for c in WS_CODES)
+_WS_ONE = re.compile('[' + ''.join('\\u%04x' % c for c in WS_CODES) + ']')       # one character of the table (not `\s`)
+_NONWS_ONE = re.compile('[^' + ''.join('\\u%04x' % c for c in WS_CODES) + ']')
+
+
 def _words(s):
-    out, cur = [], []
-    for c in s:
-        if c in WS:
-            if cur:
-                out.append(''.join(cur))
-                cur = []
-        else:
-            cur.append(c)
-    if cur:
-        out.append(''.join(cur))
-    return out
+    """The maximal runs of non-white-space characters (str.split() cuts at str.isspace characters; that these are the
+    29 code points of the table is re-checked by _check_ws_table on every run)."""
+    return s.split()
 
 
 def _nonws(s):
-    return ''.join(c for c in s if c not in WS)
+    return s.translate(_DEL_WS)
+
+
+_TEXT_CACHE = [None, None, None]
+
+
+def _text_facts(text):
+    """(non-white-space characters, words) of the text; the sweeps evaluate the same text at many widths."""
+    if _TEXT_CACHE[0] != text:
+        _TEXT_CACHE[:] = [text, _nonws(text), _words(text)]
+    return _TEXT_CACHE[1], _TEXT_CACHE[2]
 
 
 def clauses(text, width, indent, out):
@@ -165,15 +220,16 @@ def clauses(text, width, indent, out):
         return ['total: the implementation raised %r' % (out,)]
     n = len(indent)
     ws_indent = all(c in WS for c in indent)
+    text_nonws, text_words = _text_facts(text)
     # clauses that do not need the physical lines
-    if ws_indent and _nonws(out) != _nonws(text):
-        fails.append('content: non-white-space characters differ: text has %r, output has %r' % (_nonws(text)[:60], _nonws(out)[:60]))
+    if ws_indent and _nonws(out) != text_nonws:
+        fails.append('content: non-white-space characters differ: text has %r, output has %r' % (text_nonws[:60], _nonws(out)[:60]))
     if len(text) <= width and out != _rstrip(text):
         fails.append('short_identity: |text|=%d <= width=%d but output %r is not rstrip(text)' % (len(text), width, out[:80]))
     if '\n' in text:
         # a line feed inside the text is white space that may or may not have been chosen as a break:
         # physical and logical lines cannot be told apart, only the line-independent clauses apply
-        if ws_indent and _words(out) != _words(text):
+        if ws_indent and _words(out) != text_words:
             fails.append('breaks_at_ws: the words of the output differ from the words of the text')
         return fails
     lines = out.split('\n')
@@ -182,10 +238,19 @@ def clauses(text, width, indent, out):
             fails.append('rstrip: line %d ends in white space: %r' % (k, e[-10:]))
         if k > 0 and not (e.startswith(indent) or (indent.startswith(e) and (not ws_indent or e == ''))):
             fails.append('indent: continuation line %d does not start with the indent %r: %r' % (k, indent, e[:20]))
+        elif k > 0 and e == '' and n > 0 and ws_indent:
+            # "continuation lines are indented by two spaces": an EMPTY continuation line is not.  (The recorded finding
+            # C19-blank-continuation-line: a continuation line whose text is white space only is emitted empty.)
+            fails.append('indent_blank: continuation line %d is empty: it is not indented by %r (a continuation line of white space only '
+                         'is emitted as an empty line)' % (k, indent))
         if len(e) > width:
-            # a line that is longer than the width must not contain ANY white space behind the indent: it could have
-            # been broken there (the function breaks at the first white space after an over-long word)
-            legal = [p for p in range(n + 1, len(e)) if e[p] in WS]
+            # "no line that has a legal break point exceeds the width".  A legal break point is white space behind the indent
+            # region: `wrap` documents that no line -- the first one included, pinned by the doctest wrap('aa bb c', 3) --
+            # is broken at a column <= len(indent), and that an over-long word is followed by a break at the first white
+            # space after it.  So a line longer than the width must not contain ANY white space behind the indent
+            # (theorem C19_width_no_break_point; the weaker reading "no white space at a column p with
+            # len(indent) < p <= width" is C19_width).
+            legal = [m.start() for m in _WS_ONE.finditer(e, n + 1)] if _WS_ONE.search(e, n + 1) else None
             if legal:
                 fails.append('width: line %d has length %d > %d although it has white space at legal break position(s) %r' % (k, len(e), width, legal[:5]))
     # the words, line by line
@@ -195,8 +260,8 @@ def clauses(text, width, indent, out):
             lw += _words(e)
         elif e.startswith(indent):
             lw += _words(e[n:])
-    if lw != _words(text):
-        fails.append('breaks_at_ws: words of the lines %r differ from the words of the text %r (a break inside a word, or a word lost/duplicated)' % (lw[:8], _words(text)[:8]))
+    if lw != text_words:
+        fails.append('breaks_at_ws: words of the lines %r differ from the words of the text %r (a break inside a word, or a word lost/duplicated)' % (lw[:8], text_words[:8]))
     # sequential reconstruction: text = e0 t0 c1 body1 t1 c2 body2 ... with white-space t_i, c_i
     pos = 0          # prefix of the text accounted for
     pending = 0      # line breaks since the last matched body: each one replaced one white-space character
@@ -208,12 +273,9 @@ def clauses(text, width, indent, out):
         body = e if k == 0 else (e[n:] if e.startswith(indent) else '')
         if body == '':
             continue      # the un-stripped line was white space only (or the indent clause has fired)
-        j = 0
-        while j < len(body) and body[j] in WS:
-            j += 1
-        r = pos
-        while r < len(text) and text[r] in WS:
-            r += 1
+        j = len(body) - len(body.lstrip(_WS_STR))
+        m = _NONWS_ONE.search(text, pos)
+        r = m.start() if m else len(text)
         start = r - j
         if k == 0 and start != 0:
             fails.append('content: leading white space of the text changed in the first line')
@@ -239,18 +301,16 @@ def clauses(text, width, indent, out):
         prev_len = len(e)
         if k < len(lines) - 1:
             # greedy: the next white space (or the end) after the gap lies beyond the width
-            b = pos
-            while b < len(text) and text[b] in WS:
-                b += 1
-            nw = b
-            while nw < len(text) and text[nw] not in WS:
-                nw += 1
+            m = _NONWS_ONE.search(text, pos)
+            b = m.start() if m else len(text)
+            m = _WS_ONE.search(text, b)
+            nw = m.start() if m else len(text)
             if len(e) + (nw - pos) <= width:
                 fails.append('greedy: line %d was broken after column %d although the next word (%d characters after a gap of %d) fits into width %d' % (
                     k, len(e), nw - b, b - pos, width))
     if ok:
         rest = text[pos:]
-        if any(c not in WS for c in rest):
+        if _NONWS_ONE.search(rest):
             fails.append('content: the end of the text %r is missing from the output' % rest[:40])
         elif len(rest) < pending:
             fails.append('content: %d trailing line break(s) but only %d trailing white-space character(s) in the text' % (pending, len(rest)))
@@ -290,8 +350,70 @@ def _oracle_one(text, width, indent, out, spec):
     return clauses(text, width, indent, out) + spec_clauses(text, width, indent, out, spec)
 
 
+def _engine_clauses(groups, out):
+    """The clauses of C19 on the physical lines of BibTeX-engine output.  `groups[i]` = the pieces written (write$) before the
+    i-th newline$.  Model-independent: (1) the concatenation of all writes is preserved up to white space and no word is split
+    or merged, within a group or across a newline$; (2) every newline$ ends a physical line; (3) the physical lines can be
+    divided, in order, into one non-empty run per newline$ such that run i satisfies every clause of C19 as the wrapping of
+    the concatenation of the pieces of group i at width 79 with indent two blanks (a blank physical line can belong to the
+    run before or after it: every division is tried)."""
+    if not isinstance(out, str):
+        return ['total: the engine raised %r' % (out,)]
+    T = [''.join(g) for g in groups]
+    fails = []
+    if _nonws(out) != _nonws(''.join(T)):
+        fails.append('content: the non-white-space characters of the engine output %r differ from those of all writes %r' % (
+            _nonws(out)[:60], _nonws(''.join(T))[:60]))
+    want_words = [w for t in T for w in _words(t)]
+    if _words(out) != want_words:
+        fails.append('breaks_at_ws: the words of the engine output %r differ from the words written, line by line, %r '
+                     '(a word split, lost, duplicated, or merged across a newline$)' % (_words(out)[:8], want_words[:8]))
+    if not out.endswith('\n'):
+        fails.append('engine_lines: the output of %d newline$ call(s) does not end in a line feed: %r' % (len(T), out[-20:]))
+        return fails
+    P = out[:-1].split('\n')
+    if len(P) < len(T):
+        fails.append('engine_lines: %d newline$ calls but only %d physical line(s): a newline$ did not end a line' % (len(T), len(P)))
+    if fails:
+        return fails
+    P_nonws = [len(_nonws(e)) for e in P]
+
+    def rank(fl):
+        return (sum(1 for f in fl if not f.startswith('indent_blank:')), len(fl))
+    reach = {0: []}
+    for i, t in enumerate(T):
+        need = len(_nonws(t))
+        nxt = {}
+        for pos, fl in reach.items():
+            acc, e = 0, pos
+            while e < len(P):
+                acc += P_nonws[e]
+                e += 1
+                if acc > need:
+                    break
+                if acc == need:
+                    f = fl + ['%s [newline$ #%d, physical lines %d..%d]' % (x, i, pos, e - 1)
+                              for x in clauses(t, 79, '  ', '\n'.join(P[pos:e]))]
+                    if e not in nxt or rank(f) < rank(nxt[e]):
+                        nxt[e] = f
+        if not nxt:
+            return ['engine_lines: the physical lines %r cannot be divided among the newline$ calls: no run of lines holds exactly the '
+                    'text of write group %d (%r)' % (P[:6], i, t[:60])]
+        reach = nxt
+    if len(P) not in reach:
+        return ['engine_lines: %d physical line(s) are left over after the lines of all %d newline$ calls' % (len(P) - max(reach), len(T))]
+    return reach[len(P)]
+
+
 def oracle(case, impl_out, reply):
     spec = reply.get('spec')
+    if case['op'] == 'wrap_engine':
+        if not isinstance(impl_out, dict) or 'bbl' not in impl_out:
+            return ['total: the engine raised %r' % (impl_out,)]
+        fails = _engine_clauses(case['lines'], impl_out['bbl'])
+        for g, sp in zip(case['lines'], spec['groups']):
+            fails += spec_clauses(''.join(g), 79, '  ', None, sp)
+        return fails
     if case['op'] == 'wrap_widths':
         if not isinstance(impl_out, list):
             return ['total: the implementation raised %r' % (impl_out,)]
@@ -300,6 +422,64 @@ def oracle(case, impl_out, reply):
             fails += ['%s [width=%d]' % (f, w) for f in _oracle_one(case['text'], w, case['indent'], o, sp)]
         return fails
     return _oracle_one(case['text'], case['width'], case['indent'], impl_out, spec)
+
+
+# --------------------------------------------------------------------------- the recorded finding
+
+def _ref_lines(text, width, indent):
+    """The lines wrap yields today, before rstrip (a transcription of pybtex/bibtex/utils.py:wrap used ONLY to delimit the
+    recorded finding: a failure is attributed to the finding only when the output is exactly what the unchanged function
+    returns for that input)."""
+    n, out, s = len(indent), [], text
+    while len(s) > width:
+        pos = [m.start() for m in _WS_ONE.finditer(s)]
+        bp = None
+        for a, b in zip(pos, pos[1:] + [None]):
+            if (b is None or b > width) and a > n:
+                bp = a
+                break
+        if not bp:
+            out.append(s)
+            return out
+        out.append(s[:bp])
+        s = indent + s[bp + 1:]
+    if s:
+        out.append(s)
+    return out
+
+
+def _ref_wrap(text, width, indent):
+    return '\n'.join(_rstrip(l) for l in _ref_lines(text, width, indent))
+
+
+_WIDTH_TAG = re.compile(r' \[width=(-?\d+)\]\Z')
+
+
+def _known_blank_line(case, impl_out, failure_text):
+    """C19-blank-continuation-line: the failure is `indent_blank` (an empty continuation line under a white-space indent), and
+    the output is character for character what the unchanged wrap returns for this input, the empty line standing for an
+    un-stripped continuation line `indent + white space`."""
+    if not failure_text.startswith('indent_blank:'):
+        return False
+    try:
+        if case['op'] == 'wrap_engine':
+            T = [''.join(g) for g in case['lines']]
+            return (impl_out.get('bbl') == ''.join(_ref_wrap(t, 79, '  ') + '\n' for t in T) and
+                    any(_rstrip(l) == '' for t in T for l in _ref_lines(t, 79, '  ')[1:]))
+        text, indent = case['text'], case['indent']
+        if case['op'] == 'wrap_widths':
+            m = _WIDTH_TAG.search(failure_text)
+            width = int(m.group(1))
+            out = impl_out[case['widths'].index(width)]
+        else:
+            width, out = case['width'], impl_out
+        ref = [_rstrip(l) for l in _ref_lines(text, width, indent)]
+        return out == '\n'.join(ref) and '' in ref[1:]
+    except Exception:
+        return False
+
+
+KNOWN_MATCHERS = {'C19-blank-continuation-line': _known_blank_line}
 
 
 def _shape(text, width, out):
@@ -317,6 +497,17 @@ def _shape(text, width, out):
 
 
 def buckets(case, impl_out):
+    if case['op'] == 'wrap_engine':
+        if not isinstance(impl_out, dict) or 'bbl' not in impl_out:
+            return ['engine-lines:raised']
+        k = len(case['lines'])
+        phys = impl_out['bbl'].count('\n')
+        tags = ['newlines=%s' % (k if k < 4 else '4+')]
+        if any(len(g) == 0 for g in case['lines']):
+            tags.append('empty-buffer')
+        if phys > k:
+            tags.append('wrapped')
+        return ['%s:%s' % (case.get('family', 'engine-lines'), ','.join(tags))]
     if case['op'] == 'wrap_widths':
         if not isinstance(impl_out, list):
             return ['raised']
@@ -325,6 +516,8 @@ def buckets(case, impl_out):
 
 
 def nontrivial(case, impl_out):
+    if case['op'] == 'wrap_engine':
+        return isinstance(impl_out, dict) and 'bbl' in impl_out and len(case['lines']) >= 2
     if case['op'] == 'wrap_widths':
         return isinstance(impl_out, list) and any(isinstance(o, str) and '\n' in o for o in impl_out)
     return isinstance(impl_out, str) and '\n' in impl_out
@@ -401,6 +594,113 @@ def _boundary(tier):
     return cases
 
 
+GAPS = [' ', '  ', '   ', '    ', '\t', ' \t']
+
+
+def _exhaustive_gaps(max_words, max_len, leads, trails, widths):
+    """Short profiles with WIDE gaps: every gap is one of 1-4 blanks, a tab, or blank + tab; trailing runs of up to 3 blanks
+    (where the blank continuation line of the recorded finding appears)."""
+    cases = []
+    for nw in range(1, max_words + 1):
+        for lens in itertools.product(range(1, max_len + 1), repeat=nw):
+            for gaps in itertools.product(GAPS, repeat=nw - 1):
+                for lead in leads:
+                    for trail in trails:
+                        parts = [' ' * lead]
+                        for i, n in enumerate(lens):
+                            if i:
+                                parts.append(gaps[i - 1])
+                            parts.append(_word(i, n))
+                        parts.append(trail)
+                        cases.append({'op': 'wrap_widths', 'family': 'profile-gaps', 'text': ''.join(parts), 'widths': widths, 'indent': '  '})
+    return cases
+
+
+def _blank_runs(tier):
+    """Width 79, default indent: runs of 75..85 (and 150..165) blanks between and after words -- where a continuation line
+    consists of white space only -- and trailing runs of 0..5 blanks behind a line that ends at columns 74..82."""
+    cases = []
+    k = 0
+    for a in (1, 2, 3, 40, 76, 77, 78, 79, 80):
+        for r in list(range(75, 86)) + ([150, 155, 156, 157, 158, 160, 165] if a < 40 or tier != 'quick' else []):
+            for b in (1, 4, 79):
+                for fill in (' ', '\t'):
+                    text = _word(0, a) + fill * r + _word(1, b)
+                    k += 1
+                    cases.append({'op': 'wrap', 'family': 'blank-run', 'text': text, 'width': 79, 'indent': '  ',
+                                  'via': ('defaults', 'engine', None)[k % 3] if fill == ' ' else ('defaults', None)[k % 2], 'split': (a + r) % (len(text) + 1)})
+                    cases.append({'op': 'wrap', 'family': 'blank-run', 'text': text + ' ' + _word(2, 5), 'width': 79, 'indent': '  ', 'via': 'defaults'})
+    for a in range(74, 83):
+        for t in range(0, 6):
+            # the last physical line ends at column a: the whole text, a short word + the rest, or a second line of length a
+            for pre, last in (('', a), (_word(3, 6) + ' ', a - 7), (_word(3, 70) + ' ' + _word(4, 12) + '  ', a - 2)):
+                text = pre + _word(0, last) + ' ' * t
+                k += 1
+                cases.append({'op': 'wrap', 'family': 'blank-trail', 'text': text, 'width': 79, 'indent': '  ',
+                              'via': ('defaults', 'engine')[k % 2], 'split': k % (len(text) + 1)})
+    return cases
+
+
+def _sentence(rng, nwords, lens=(1, 2, 3, 4, 5, 6, 7, 8, 9, 10, 12, 15, 30, 76, 77, 78, 79, 80, 81, 120)):
+    return [_word(rng.randint(0, 25), rng.choice(lens)) for _ in range(nwords)]
+
+
+ENGINE_SPECIALS = ['{', '}', '{}', '%', '~', '\\', "'", '(', ')', '\\em', '{\\em', '$x^2$', '&', '#1', 'a%b', '``q\'\'', '--', 'J.~R.']
+
+
+def _pieces(rng, text):
+    """Cut a text into 0..6 write$ pieces (empty pieces allowed; cuts fall inside words and inside blank runs alike)."""
+    if rng.random() < 0.1:
+        return [text]
+    cuts = sorted(rng.randint(0, len(text)) for _ in range(rng.randint(0, 5)))
+    out, prev = [], 0
+    for c in cuts + [len(text)]:
+        out.append(text[prev:c])
+        prev = c
+    return out
+
+
+def _random_group(rng):
+    x = rng.random()
+    if x < 0.12:
+        return [] if rng.random() < 0.6 else [''] * rng.randint(1, 3)          # newline$ on an empty buffer
+    if x < 0.2:
+        return _pieces(rng, rng.choice([' ', '  ', '\t', '   ', ' ' * rng.randint(4, 90)]))     # blanks only
+    words = _sentence(rng, rng.randint(1, 25)) if rng.random() < 0.6 else _sentence(rng, rng.randint(1, 6), lens=(1, 2, 3, 5, 8))
+    if rng.random() < 0.3:
+        for _ in range(rng.randint(1, 3)):
+            words.insert(rng.randint(0, len(words)), rng.choice(ENGINE_SPECIALS))
+    text = (' ' * rng.choice([0, 0, 0, 1, 2, 3])) + ''.join(w + rng.choice([' ', ' ', ' ', '  ', '\t', '   ', '    ']) for w in words)
+    if rng.random() < 0.6:
+        text = text.rstrip()
+    return _pieces(rng, text)
+
+
+# the groups the systematic part of the `engine-lines` family is built from: empty buffers, blank buffers, several pieces with
+# white space at their ends (a write$ that strips its argument glues words), lines that wrap, lines that end at the boundary
+ENGINE_GROUPS = [
+    [], [''], ['a'], ['ab ', 'cd'], [' a', ' ', 'b '], ['   '], ['x', '', 'y z', ''],
+    [_word(0, 40) + ' ', _word(1, 38), ' ' + _word(2, 5)],
+    [_word(3, 79), '  '],
+    [_word(4, 30), ' ', _word(5, 60), ' ', _word(6, 85), ' q'],
+]
+
+
+def _engine_lines_cases(tier, rng):
+    cases = []
+    for k in (1, 2, 3):
+        for gs in itertools.product(ENGINE_GROUPS, repeat=k):
+            cases.append({'op': 'wrap_engine', 'family': 'engine-lines', 'lines': [list(g) for g in gs]})
+    for _ in range(1500 if tier == 'quick' else 20000):
+        cases.append({'op': 'wrap_engine', 'family': 'engine-lines-random', 'lines': [_random_group(rng) for _ in range(rng.choice([1, 2, 2, 3, 3, 4, 5, 6]))]})
+    # long buffers (beyond 5000 characters) in several pieces
+    for n in (5000, 7000):
+        words = _sentence(rng, n // 8, lens=(1, 3, 5, 7, 9, 11, 14))
+        text = ' '.join(words)
+        cases.append({'op': 'wrap_engine', 'family': 'engine-lines-long', 'lines': [_pieces(rng, text), [], _pieces(rng, text[:300])]})
+    return cases
+
+
 OTHER_WS = [chr(c) for c in WS_CODES if c not in (32, 10)]
 INDENTS = ['  ', '  ', '  ', '', ' ', '\t', '    ', ' \t ', '  ', '> ', '%%', 'ab ']
 
@@ -472,9 +772,14 @@ def gen_cases(tier, rng, info):
     _check_ws_table()
     cases = [{'op': 'wrap', 'family': 'doctest', 'text': t, 'width': w, 'indent': '  '} for t, w in DOCTESTS]
     widths = list(range(3, 13))
-    ex = _exhaustive(4, 6, (0, 1, 2), (0, 1), widths)
     scope_n = 4
-    if tier != 'quick':
+    if tier == 'quick':
+        # quick tier: the trailing blank on 0..3 words only (the families profile-gaps / blank-trail carry the trailing runs)
+        ex = _exhaustive(3, 6, (0, 1, 2), (0, 1), widths)
+        seen = {c['text'] for c in ex}
+        ex += [c for c in _exhaustive(4, 6, (0, 1, 2), (0,), widths) if c['text'] not in seen]
+    else:
+        ex = _exhaustive(4, 6, (0, 1, 2), (0, 1), widths)
         seen = {c['text'] for c in ex}
         ex += [c for c in _exhaustive(5, 6, (0, 1, 2), (0,), widths) if c['text'] not in seen]
         scope_n = 5
@@ -486,13 +791,25 @@ def gen_cases(tier, rng, info):
             cases.append(dict(c, indent=ind, family='profile-indent'))
     bd = _boundary(tier)
     cases += bd
+    gp = _exhaustive_gaps(3, 4 if tier == 'quick' else 5, (0, 1), ('', ' ', '   '), list(range(3, 9)))
+    cases += gp
+    br = _blank_runs(tier)
+    cases += br
+    el = _engine_lines_cases(tier, rng)
+    cases += el
     info['exhaustive'] = True
-    info['scope'] = ('every text made of 0..%d words with lengths 1..6, gaps of 1-2 blanks, 0-2 leading blanks, 0-1 trailing blank (no trailing blank for 5 words) '
+    info['scope'] = ('every text made of 0..%d words with lengths 1..6, gaps of 1-2 blanks, 0-2 leading blanks, 0-1 trailing blank (no trailing blank for the longest profiles: 4 words quick / 5 words thorough) '
                      '(%d texts) at every width 3..12 with indent "  " (%d wrap calls); every text of 0..3 words with lengths 1..4, gaps 1-2, '
                      '0-1 leading blanks at every width -1..6 for the indents "", " ", "\\t ", "   ", "> " (%d wrap calls); boundary sweep at '
                      'width 79: %d texts (two words 70..90 x 70..90, three words %s, continuation-line boundary, runs of short words); '
-                     'doctest examples') % (scope_n, len(ex), len(ex) * len(widths), len(small) * 5 * 8, len(bd),
-                                            '75..82 each' if tier == 'quick' else '70..90 each')
+                     'doctest examples; every text of 1..3 words with lengths 1..%d and every gap one of 1-4 blanks / tab / blank+tab, 0-1 leading '
+                     'blanks, trailing "", " ", "   " at every width 3..8 (%d texts); width 79: blank / tab runs of 75..85 and 150..165 '
+                     'between words and trailing runs of 0..5 blanks behind lines ending at columns 74..82 (%d texts); BibTeX engine: every '
+                     'sequence of 1..3 newline$ groups over %d fixed write$ groups (empty buffer, blank buffer, pieces with white space at '
+                     'their ends, wrapping lines) = %d programs, plus random programs') % (
+                         scope_n, len(ex), len(ex) * len(widths), len(small) * 5 * 8, len(bd),
+                         '75..82 each' if tier == 'quick' else '70..90 each', 4 if tier == 'quick' else 5, len(gp), len(br),
+                         len(ENGINE_GROUPS), sum(len(ENGINE_GROUPS) ** k for k in (1, 2, 3)))
     nrand = 6000 if tier == 'quick' else 100000
     for _ in range(nrand):
         cases.append(_random_case(rng))
@@ -503,11 +820,21 @@ LEVEL_TEXT = ('Machine-checked proof (Lean 4) about an executable model of wrap 
               'width and every indent string: the un-stripped lines reassemble to the text with exactly one white-space character replaced '
               'per break; breaks fall only on white space and never inside a word; continuation lines start with the indent; a line longer '
               'than the width has no legal break position; lines are as long as possible; rstrip removes trailing white space only; short '
-              'texts come back as one stripped line; the loop terminates (well-founded recursion, |indent| < break_pos). The model is tied to '
-              'the code by a correspondence check that is exhaustive over small word-length profiles at widths 3..12, sweeps the boundary at '
-              '79 and samples long random lines, also through the BibTeX interpreter (write$ / newline$).')
+              'texts come back as one stripped line; the loop terminates (well-founded recursion, |indent| < break_pos).  The statement is '
+              'instantiated for the call the engine makes (width 79, indent two blanks: C19_default_lines) and tied to the newline$ / write$ '
+              'steps of the interpreter model (C19_engine_newline: the buffer is emptied; C19_engine_output: a sequence of write$ groups and '
+              'newline$ calls preserves the concatenation of all writes up to white space, group by group).  The model is tied to '
+              'the code by a correspondence check that is exhaustive over small word-length profiles at widths 3..12 (gaps of 1-4 blanks and '
+              'tabs in a second family), sweeps the boundary at 79 (incl. blank runs of 75..85 / 150..165 and trailing blanks), samples long '
+              'random lines, and runs .bst programs with several newline$ calls, empty buffers and several write$ pieces per line through '
+              'the real Interpreter and through the interpreter model, with the property oracle on the physical lines.')
 LEVEL_NOTE = ('Trusted: Lean kernel; axioms propext/Classical.choice/Quot.sound only; the hand-written model (Model/Wrap.lean) corresponds to '
-              'pybtex/bibtex/utils.py only as far as the differential check explores; the regular expression (\\s) and str.rstrip are modelled '
-              'by the 29 white-space code points (table re-checked against the running Python on every run). Observation: a continuation '
-              'line that consists of white space only is emitted as an EMPTY line (BibTeX drops such lines; a blank line is a paragraph '
-              'break for TeX) -- the property as stated does not forbid it, it is reported to the coordinator, not as a violation.')
+              'pybtex/bibtex/utils.py only as far as the differential check explores; the regular expression (\\s), str.rstrip and the str.split() '
+              'the oracle uses for "words" are modelled by the 29 white-space code points (table re-checked against the running Python on every '
+              'run).  "Legal break point" is read as white space behind the indent region on EVERY line, the first included (the function '
+              'documents a minimal line length of len(indent)+1 and pins it by the doctest wrap("aa bb c", 3) = "aa bb\\n  c"); the width '
+              'clause of the oracle is the strong reading (an over-long line has no white space behind the indent at all, '
+              'C19_width_no_break_point), C19_width is the weak one.  Recorded finding C19-blank-continuation-line: a continuation line whose '
+              'text is white space only is emitted EMPTY (not indented; a blank line is a paragraph break for TeX; BibTeX drops such '
+              'lines) -- C19_indent_emitted_partial / _neg; the check reports it as KNOWN-FINDING only when the output is character for '
+              'character what the unchanged function returns.  Texts that contain a line feed get the line-independent clauses only.')
